@@ -69,6 +69,19 @@ impl SimSystemTime {
     }
 }
 
+static INLINE_BLOCKING: std::sync::atomic::AtomicBool = std::sync::atomic::AtomicBool::new(false);
+
+/// When set, work that the driver normally hands to Tokio's blocking pool
+/// (replica locator precomputation) runs inline on the calling task, so that a
+/// simulation has no real thread whose timing it does not control.
+pub fn set_inline_blocking(inline: bool) {
+    INLINE_BLOCKING.store(inline, std::sync::atomic::Ordering::SeqCst);
+}
+
+pub(crate) fn inline_blocking() -> bool {
+    INLINE_BLOCKING.load(std::sync::atomic::Ordering::SeqCst)
+}
+
 static SCHED_POINT: RwLock<Option<fn(&'static str)>> = RwLock::new(None);
 
 /// Installs (or removes) the callback invoked at scheduling points.
